@@ -1296,12 +1296,23 @@ def der_tlv(b, off):
     off += 2
     if ln & 0x80:
         k = ln & 0x7F
+        if k == 0 or k > 4:
+            raise ValueError('length form')
         ln = int.from_bytes(b[off:off + k], 'big')
         off += k
+    if off + ln > len(b):
+        raise ValueError('truncated')
     return tag, b[off:off + ln], off + ln
 
 
 def parse_sig(der):
+    try:
+        return _parse_sig(der)
+    except (IndexError, ValueError, OverflowError):
+        return None
+
+
+def _parse_sig(der):
     tag, body, end = der_tlv(der, 0)
     if tag != 0x30 or end != len(der):
         return None
@@ -1313,6 +1324,13 @@ def parse_sig(der):
 
 
 def parse_ct(der):
+    try:
+        return _parse_ct(der)
+    except (IndexError, ValueError, OverflowError):
+        return None
+
+
+def _parse_ct(der):
     tag, body, end = der_tlv(der, 0)
     if tag != 0x30 or end != len(der):
         return None
@@ -1628,7 +1646,7 @@ def u_enc(ctx, u):
     ke = {'1': 1, '2': 2, 'N-1': N - 1, 'N-2': N - 2}.get(u['ke']) or rng.randrange(1, N)
     M = EncMaster(ctx, ke)
     lens = list(u['lens'])
-    flip_target = None
+    flip_target = long_target = None
     per_id = (len(lens) + len(u['idlens']) - 1) // len(u['idlens'])
     for ii, idlen in enumerate(u['idlens']):
         idlen = idlen or rng.randint(1, 8191)
@@ -1676,6 +1694,8 @@ def u_enc(ctx, u):
                 ctx.nontrivial('decrypt-other', ke, ident, id2, ct, why)
             if flip_target is None or len(ct) < len(flip_target[2]):
                 flip_target = (ident, msg, ct, ii)
+            if long_target is None or len(ct) > len(long_target[2]):
+                long_target = (ident, msg, ct, ii)
         # key encapsulation and the struct-level interfaces
         for klen in u.get('klens', [1, 16, 32, 33, 100]):
             r = pick_scalar(rng, N - 2)
@@ -1715,10 +1735,14 @@ def u_enc(ctx, u):
             ctx.nontrivial('do_encrypt', ke, ident, msg, r)
             for x in (mb, C1, c2b, c3b, ob):
                 x.free()
-        if u.get('flips') and flip_target and flip_target[3] == ii:
-            fid, fmsg, ct, _ = flip_target
+        targets = []
+        if u.get('flips') and ii == 0 and flip_target:
+            targets.append((flip_target, u['flips']))
+        if u.get('flips_long') and ii == 0 and long_target:
+            targets.append((long_target, 'all'))
+        for (fid, fmsg, ct, _), how in targets:
             nbits = len(ct) * 8
-            sel = range(nbits) if u['flips'] == 'all' else sorted(rng.sample(range(nbits), min(nbits, u['flips'])))
+            sel = range(nbits) if how == 'all' else sorted(rng.sample(range(nbits), min(nbits, how)))
             ctx.begin(['decrypt-bitflips', nbits])
             for bit in sel:
                 c2_ = bytearray(ct)
@@ -1728,7 +1752,6 @@ def u_enc(ctx, u):
                           id=fid[:48].hex(), plaintext_len=len(fmsg))
                 ctx.nontrivial('decrypt-flip', ct, bit)
             ctx.stat('ciphertext_bits_flipped', len(sel))
-            flip_target = None
         for x in (key, key2, ib):
             x.free()
     ctx.sample({'kind': 'enc', 'ke': hx(ke), 'idlens': u['idlens'], 'lens': lens[:8], 'flips': u.get('flips')})
@@ -1832,8 +1855,12 @@ def u_keyder(ctx, u):
         rc, der = to_der(ctx, lib.sm9_sign_master_key_to_der, M.buf, L.get('SM9_SIGN_MASTER_KEY_MAX_SIZE', 171))
         rc2, obj, left = from_der(ctx, lib.sm9_sign_master_key_from_der, L['sizeof_SM9_SIGN_MASTER_KEY'], der)
         raw = obj.raw()
-        ctx.check(rc == 1 and rc2 == 1 and left == 0 and UL(raw, L['off_SM9_SIGN_MASTER_KEY_ks']) == ks and
-                  dec_g2(raw[:192]) == M.ppubs, 'sign_master_key_der:round-trip', rets=[rc, rc2], der=der.hex(), **d)
+        if rc == 1 and rc2 != 1 and ks < (1 << 248):
+            # to_der writes a minimal INTEGER, from_der insists on 32 content bytes
+            ctx.check(False, 'sign_master_key_der:own-encoding-rejected:key-below-2^248', rets=[rc, rc2], der=der.hex(), **d)
+        else:
+            ctx.check(rc == 1 and rc2 == 1 and left == 0 and UL(raw, L['off_SM9_SIGN_MASTER_KEY_ks']) == ks and
+                      dec_g2(raw[:192]) == M.ppubs, 'sign_master_key_der:round-trip', rets=[rc, rc2], der=der.hex(), **d)
         ctx.check(R.g2_bytes(M.ppubs) in der, 'sign_master_key_der:public-key-octets', der=der.hex(), **d)
         obj.free()
         rc, der = to_der(ctx, lib.sm9_sign_master_public_key_to_der, M.buf, L.get('SM9_SIGN_MASTER_PUBLIC_KEY_SIZE', 136))
@@ -1859,8 +1886,11 @@ def u_keyder(ctx, u):
         rc, der = to_der(ctx, lib.sm9_enc_master_key_to_der, E.buf, L.get('SM9_ENC_MASTER_KEY_MAX_SIZE', 105))
         rc2, obj, left = from_der(ctx, lib.sm9_enc_master_key_from_der, L['sizeof_SM9_ENC_MASTER_KEY'], der)
         raw = obj.raw()
-        ctx.check(rc == 1 and rc2 == 1 and left == 0 and UL(raw, L['off_SM9_ENC_MASTER_KEY_ke']) == ks and
-                  dec_g1(raw[:96]) == E.ppube, 'enc_master_key_der:round-trip', rets=[rc, rc2], der=der.hex(), **d)
+        if rc == 1 and rc2 != 1 and ks < (1 << 248):
+            ctx.check(False, 'enc_master_key_der:own-encoding-rejected:key-below-2^248', rets=[rc, rc2], der=der.hex(), **d)
+        else:
+            ctx.check(rc == 1 and rc2 == 1 and left == 0 and UL(raw, L['off_SM9_ENC_MASTER_KEY_ke']) == ks and
+                      dec_g1(raw[:96]) == E.ppube, 'enc_master_key_der:round-trip', rets=[rc, rc2], der=der.hex(), **d)
         obj.free()
         rc, der = to_der(ctx, lib.sm9_enc_master_public_key_to_der, E.buf, L.get('SM9_ENC_MASTER_PUBLIC_KEY_SIZE', 70))
         rc2, obj, left = from_der(ctx, lib.sm9_enc_master_public_key_from_der, L['sizeof_SM9_ENC_MASTER_KEY'], der)
@@ -1959,7 +1989,7 @@ def plan(tier, seed):
         lens = list(range(256))[i % 8::8] if q else list(range(256))[i % 4::4]
         ke = ['1', 'N-1'][i] if i < 2 else 'rand'
         U.append({'kind': 'enc', 'ke': ke, 'idlens': idl[(i + 3) % len(idl)], 'lens': lens,
-                  'flips': 'all' if (not q or i % 2 == 0) else 128, 'klens': [1, 16, 32, 33, 100] if i % 2 else [31, 64, 287],
+                  'flips': 'all' if (not q or i % 2 == 0) else 128, 'flips_long': (not q and i % 4 == 1), 'klens': [1, 16, 32, 33, 100] if i % 2 else [31, 64, 287],
                   'weight': 12 if q else 24})
     for _ in range(2 if q else 12):
         U.append({'kind': 'exch', 'n': 5 if q else 12, 'weight': 4})
